@@ -149,6 +149,27 @@ def run(prop, key, direction):
         else:
             res.violate(f.rule, f.where, f.construct, f.msg, file=f.file, line=f.line)
     res.floor(prop + ".R6", 2)
+    # R7: the validators are reached: each of the 8 generic parse methods hands the authenticated payload to the claim checks and returns
+    # Ok only through them (parse contracts, rules/claims_sem.py); the 8 prelude parse methods delegate (rules/layers.py)
+    from .. import claims_sem, skeleton as S_
+    ents = S_.entry_points(facts)
+    lay = layers.analyse(facts, ents)
+    for f in claims_sem.parse_contracts(facts, ents):
+        res.oblige(bool(f.ok))
+        if f.ok:
+            res.inst(prop + ".R7", f.desc)
+        else:
+            res.violate(prop + ".R7", f.where, f.construct, (f.msg if f.ok is False else "not decided (fail closed): " + f.msg) + " - the default %s validator is not (only) what decides this entry point" % key, file=f.file, line=f.line)
+    for e in S_.select(ents, "prelude", "consumer"):
+        fs, why = lay.get(e.id, (None, None))
+        for f in (fs or []):
+            if f.rule == "C03.R6":
+                res.oblige(f.ok)
+                if f.ok:
+                    res.inst(prop + ".R7", f.desc)
+                else:
+                    res.violate(prop + ".R7", f.where, f.construct, f.msg, file=f.file, line=f.line)
+    res.floor(prop + ".R7", 8)
     # R4: the registered validator is actually invoked with the payload's value and its verdict honoured (verify_claims rules of C16)
     from .. import claims as CL
     for f in CL.analyse(facts):
